@@ -15,6 +15,8 @@ def Inv0 (lv : Bool) (s : KState ℚ σ) (strict : Bool := false) : Prop := Inv 
 structure AgendaOnce (s : KState ℚ σ) : Prop where
   nodup : (s.agenda.map (·.ev)).Nodup
   live : ∀ q ∈ s.agenda, (s.ev q.ev).out ≠ none ∧ (s.ev q.ev).cbs ≠ none
+  /-- …and conversely: every triggered, unprocessed event is in the agenda -/
+  sched : ∀ e, (s.ev e).out ≠ none → (s.ev e).cbs ≠ none → ∃ q ∈ s.agenda, q.ev = e
 
 /-- **the registration invariant**: a `_resume p` in the callbacks of `e` means that `p` is an unfinished process
 whose current target is `e`, and it is there exactly once -/
@@ -34,12 +36,12 @@ def AllRegistered (s : KState ℚ σ) : Prop :=
     ∃ t L, pr.target = some t ∧ (s.ev t).cbs = some L ∧ Cb.resume p ∈ L
 
 theorem Inv0.weaken {strict : Bool} {s : KState ℚ σ} (h : Inv0 true s strict) : Inv0 false s strict :=
-  ⟨h.c.ghost (fun _ h => h) h.c.rem_count rfl (fun p hp => by cases hp), h.q, ⟨fun hl => by cases hl⟩⟩
+  ⟨h.c.ghost (fun _ h => h) h.c.rem_count rfl (fun p hp => by cases hp), h.q, ⟨fun hl => by cases hl⟩, h.s⟩
 
 /-- the initial invariant does not depend on the mode -/
 theorem Inv0.strict_irrel {lv a b : Bool} {s : KState ℚ σ} (h : Inv0 lv s a)
     (hreg : lv = true → b = true → AllRegistered s) : Inv0 lv s b := by
-  refine ⟨h.c.ghost (fun _ h => h) h.c.rem_count rfl (fun p hp => by cases hp), h.q, ⟨?_⟩⟩
+  refine ⟨h.c.ghost (fun _ h => h) h.c.rem_count rfl (fun p hp => by cases hp), h.q, ⟨?_⟩, h.s⟩
   intro hl p pr hp ho _
   obtain ⟨t, h1, h2, h3⟩ := h.l.live hl p pr hp ho (by simp [g0])
   refine ⟨t, h1, h2, ?_⟩
@@ -53,7 +55,7 @@ theorem Inv0.strict_irrel {lv a b : Bool} {s : KState ℚ σ} (h : Inv0 lv s a)
     · exact Or.inr (Or.inr ⟨hb, h3⟩)
 
 theorem Inv0.agendaOnce {lv strict : Bool} {s : KState ℚ σ} (h : Inv0 lv s strict) : AgendaOnce s :=
-  ⟨by rw [List.Nodup, List.pairwise_map]; exact h.c.ag_distinct, h.c.ag_live⟩
+  ⟨by rw [List.Nodup, List.pairwise_map]; exact h.c.ag_distinct, h.c.ag_live, h.s⟩
 
 theorem Inv0.regOnce {lv strict : Bool} {s : KState ℚ σ} (h : Inv0 lv s strict) : RegOnce s := by
   intro e L p hL hm
@@ -81,7 +83,7 @@ theorem Inv0.allRegistered {s : KState ℚ σ} (h : Inv0 true s true) : AllRegis
 
 theorem Inv.e0 {g : Ghost} {s : KState ℚ σ} (hi : Inv g s) (hrem : g.rem = []) (x : EvId) : Inv { g with e0 := x } s := by
   refine ⟨⟨hi.c.ag_distinct, hi.c.ag_live, hi.c.done_trig, hi.c.procs, hi.c.reg, hi.c.intr, hi.c.check, hi.c.pend, ?_,
-    hi.c.rem_check, ?_, hi.c.rem_count⟩, hi.q, hi.l.ghost (fun _ h => h) (fun h => h) ?_⟩
+    hi.c.rem_check, ?_, hi.c.rem_count⟩, hi.q, hi.l.ghost (fun _ h => h) (fun h => h) ?_, hi.s⟩
   · intro p hp
     have : Cb.resume p ∈ g.rem := hp
     rw [hrem] at this; cases this
@@ -127,7 +129,19 @@ theorem Inv.openEvent {lv strict : Bool} {s : KState ℚ σ} (hi : Inv0 lv s str
     split at h
     · cases h
     · rename_i hx; exact ⟨hx, h⟩
-  refine ⟨⟨?_, ?_, ?_, ?_, ?_, ?_, ?_, ?_, ?_, ?_, ?_, ?_⟩, ?_, ?_⟩
+  refine ⟨⟨?_, ?_, ?_, ?_, ?_, ?_, ?_, ?_, ?_, ?_, ?_, ?_⟩, ?_, ?_, ?_⟩
+  rotate_right
+  · -- whatever is triggered and unprocessed after the pop was so before, and is not the popped event
+    intro e h1 h2
+    rw [ho] at h1
+    rw [hcb] at h2
+    split at h2
+    · exact absurd rfl h2
+    · rename_i hne
+      obtain ⟨b, hb, hbe⟩ := hi.s e h1 h2
+      rcases List.mem_cons.mp (sp.1.subset hb) with hbq | hbr
+      · exact absurd (by rw [← hbe, hbq]) hne
+      · exact ⟨b, hbr, hbe⟩
   · exact (List.pairwise_cons.mp hpw).2
   · intro b hb
     have hne : b.ev ≠ q.ev := ((List.pairwise_cons.mp hpw).1 b hb).symm
@@ -288,7 +302,9 @@ theorem Inv0.init (lv : Bool) (t0 : ℚ) (rs : Array ResRec)
     Inv0 lv ({ now := t0, resources := rs } : KState ℚ σ) strict := by
   have hev : ∀ e, ({ now := t0, resources := rs } : KState ℚ σ).ev e = default := fun e => by simp [KState.ev]
   have hpr : ∀ p, ({ now := t0, resources := rs } : KState ℚ σ).proc? p = none := fun p => rfl
-  refine ⟨⟨?_, ?_, ?_, ?_, ?_, ?_, ?_, ?_, ?_, ?_, ?_, ?_⟩, ⟨?_, ?_⟩, ⟨?_⟩⟩
+  refine ⟨⟨?_, ?_, ?_, ?_, ?_, ?_, ?_, ?_, ?_, ?_, ?_, ?_⟩, ⟨?_, ?_⟩, ⟨?_⟩, ?_⟩
+  rotate_right
+  · intro e h1; rw [hev] at h1; exact absurd rfl h1
   · exact List.Pairwise.nil
   · intro q hq; cases hq
   · intro e he; exact absurd he (Nat.not_lt_zero _)
@@ -327,16 +343,21 @@ variable {σ : Type}
 theorem Inv0.until_time {lv strict : Bool} {s : KState ℚ σ} (hi : Inv0 lv s strict) (at_ : ℚ) :
     Inv0 lv (((s.newEv { kind := .sentinel, cbs := some [], out := some (.ok .none) }).1.scheduleAt s.events.size URGENT at_).addCb
       s.events.size .stop) strict := by
-  have h1 : Inv (g0 lv strict) (s.newEv { kind := .sentinel, cbs := some [], out := some (.ok .none) }).1 :=
+  have h1 : InvX s.events.size (g0 lv strict) (s.newEv { kind := .sentinel, cbs := some [], out := some (.ok .none) }).1 :=
     Inv.newEv hi _ [] rfl (fun p hm => by simp at hm) (fun iv hm => by simp at hm) (fun c hm => by simp at hm)
   have h2 : Inv (g0 lv strict) ((s.newEv { kind := .sentinel, cbs := some [], out := some (.ok .none) }).1.scheduleAt
       s.events.size URGENT at_) := by
     refine ⟨h1.c.sched { time := at_, prio := URGENT, eid := s.eid, ev := s.events.size } rfl rfl (fun _ => rfl) (fun _ => rfl)
-      ?_ ?_ ?_, h1.q.keep (fun _ => rfl) (fun _ => rfl) (fun _ h _ => ⟨rfl, h⟩), ⟨h1.l.live⟩⟩
+      ?_ ?_ ?_, h1.q.keep (fun _ => rfl) (fun _ => rfl) (fun _ h _ => ⟨rfl, h⟩), ⟨h1.l.live⟩, ?_⟩
     · intro b hb
       exact Nat.ne_of_lt (hi.c.agenda_lt b hb)
     · rw [KState.ev_newEv, if_pos rfl]; simp
     · rw [KState.ev_newEv, if_pos rfl]; simp
+    · intro e' k1 k2
+      by_cases he : e' = s.events.size
+      · exact ⟨_, List.mem_cons_self, he.symm⟩
+      · obtain ⟨q, hq, hqe⟩ := h1.sx e' he k1 k2
+        exact ⟨q, List.mem_cons_of_mem _ hq, hqe⟩
   exact Inv.addCb h2 _ .stop (fun p h => by cases h) (fun iv h => by cases h) (fun c h => by cases h)
 
 /-! ## processed for good -/
